@@ -5,8 +5,8 @@ open Driver AGH AGH.C20
 /-
 Driver for C20.  Block protocol:
 
-  C20.reset  maxEntry bufSize baseNs datePrefixHex nfiles  { complete nseg { count kind len a b }* }*
-      =>  ok size_0 … size_{n-1}
+  C20.reset  baseNs datePrefixHex nfiles  { complete nseg { count kind len a b }* }*
+      =>  ok maxEntry bufSize size_0 … size_{n-1}
   C20.start | C20.next n | C20.seek ts | C20.fstart k | C20.fnext k n | C20.fseek k ts
       =>  <result fields>  <dump>
 
@@ -190,8 +190,9 @@ def parseOp (n : Nat) (name : String) (ins : List String) : Option Op :=
   | _, _ => none
 
 def doReset (ins impl : List String) : Option (DState × String) := do
-  match ins with
-  | me :: bs :: base :: dp :: nf :: rest =>
+  match ins, impl with
+  | base :: dp :: nf :: rest, "ok" :: me :: bs :: _ =>
+    -- the constants are an observation of the implementation; the model runs with them
     let P : Params := ⟨← me.toNat?, ← bs.toNat?⟩
     let datePre ← hexDecode dp
     let n ← nf.toNat?
@@ -201,12 +202,12 @@ def doReset (ins impl : List String) : Option (DState × String) := do
     let s : DState := { P := P, fs := fs, ds := ds, base := ← base.toInt?, datePre := datePre,
                         r := rInit n, sp := specInit n, ready := true }
     let s := { s with ctx := mkCtx (tsOfD s) ds }
-    let out := "\t".intercalate ("ok" :: fs.map (fun f => toString f.size))
+    let out := "\t".intercalate ("ok" :: me :: bs :: fs.map (fun f => toString f.size))
     let agree := out == "\t".intercalate impl
     -- the hypotheses of the theorems about the parameters, reported (not a verdict)
     let hyp := if entryLimit ≤ P.maxEntry ∧ P.maxEntry ≤ P.bufSize then "paramsOK" else "paramsOUTSIDE-THEOREM"
     pure (s, verdict agree none (out ++ "\t" ++ hyp))
-  | _ => none
+  | _, _ => none
 
 def doOp (s : DState) (name : String) (ins impl : List String) : Option (DState × String) := do
   if !s.ready then none else
